@@ -323,3 +323,17 @@ HARNESSES = [
 ]
 OUTSIDE = ["rule sets that register the same key twice (documented as undefined)",
            "route codes with empty segments other than the ones listed"]
+
+
+def e2_lemmas(tier):
+    """E2 (zproxy): the same real functions on proxies carrying SMT terms - unbounded tag sets / strings."""
+    from vf import e2
+    return e2.summarise(e2.c18_lemmas())
+
+
+def e2_replay(name, model):
+    from vf import e2
+    for l in e2.c18_lemmas():
+        if l["name"] == name:
+            return l["verdict"] != "REFUTED", l
+    return True, {"note": "lemma not found"}
